@@ -182,6 +182,11 @@ def examineJSON (fieldOK : Bytes → Json → Bool) (doc : Json) : Except CFb Fi
   | .null => .error .jsonNull
   | .obj fs => if dupFree doc then .ok fs else .error .dupKey
 
+/-- the object passes the generic layer of `examineJSON`: it decodes into the struct and has no
+duplicate key at any depth -/
+def passesJSON (fieldOK : Bytes → Json → Bool) (fs : Fields) : Bool :=
+  fs.all (fun kv => fieldOK kv.1 kv.2) && dupFree (.obj fs)
+
 /-! ### `examineConnectErrorDetail` -/
 
 def isLetter (c : UInt8) : Bool :=
